@@ -15,7 +15,7 @@ CHECKS = {
 
  "C01": ("enum", "model_checking",
          "bounded-exhaustive type-directed program enumeration executed on the real pipeline and 4 back ends; result values walked through exported fields",
-         "Every well-typed program of the object alphabet up to the depth bound (object literals in all field permutations inside lists, maps, branches and polymorphic calls, projected by member / subscript; raw, host-map and host-struct environments whose objects are stored in both field orders; programs compiled against one field order and invoked with the other; one Callable per back end invoked along histories of <= 4 environments whose objects alternate field order; literals of 41..600 components; host containers whose elements would differ in type) is compiled and run on the four back ends; the real inferred type, the dynamic type of the result and the declared type of every component must agree and no component may be nil. A worker that dies while reading a value is attributed to the program (isolated 5x re-run).",
+         "Every well-typed program of the object alphabet up to the depth bound (object literals in all field permutations inside lists, maps, branches and polymorphic calls, projected by member / subscript; raw, host-map and host-struct environments whose objects are stored in both field orders; programs compiled against one field order and invoked with the other; one Callable per back end invoked along histories of <= 4 environments whose objects alternate field order; literals of 41..600 components; host containers whose elements would differ in type) is compiled and run on the four back ends; the real inferred type, the dynamic type of the result and the declared type of every component must agree and no component may be nil. A worker that dies while reading a value is attributed to the program (isolated re-runs until 3 reproduce).",
          "Trusted: the value reader (mc/real/val.go) and the term renderer. Bound: depth 2 with one nested operand (quick) / full depth 2, depth 3 for num results (thorough); function-typed values not covered.",
          "DESIGN.md §4 C01"),
  "C02": ("enum", "model_checking",
@@ -78,7 +78,7 @@ CHECKS = {
          "DESIGN.md §4 C11"),
  "C12": ("enum", "model_checking",
          "bounded-exhaustive enumeration of token sequences, corpus edits, nesting families and host-value shapes through every public entry point under a deterministic step budget",
-         "All token sequences of <= 4 (thorough 5) tokens over a 26-token alphabet, every single (thorough: double) token insertion / deletion / duplication / replacement of a 24-program corpus, 20 nesting families to depth 64 (thorough 200) and 66 host values (nil, typed nil, pointer to nil pointer, nil interfaces inside containers, cyclic pointers, recursive types, unsupported kinds) go through Eval, Compile + Callable and Debug inside isolated worker processes: a panic that escapes the API or a dead worker is a violation, and the work counted by the build-tag Step hooks (lexer tokens, parser expr calls, checker nodes, unify calls, conversion calls) must stay below 200·(n+2)²+2000 for an input of n runes — a deterministic abort, never a wall-clock oracle.",
+         "All token sequences of <= 4 (thorough 5) tokens over a 26-token alphabet, every single (thorough: double) token insertion / deletion / duplication / replacement of a 24-program corpus, 20 nesting families to depth 64 (thorough 200) and 66 host values (nil, typed nil, pointer to nil pointer, nil interfaces inside containers, cyclic pointers, recursive types, unsupported kinds) go through Eval, Compile + Callable and Debug inside isolated worker processes; chains and nests of 2…40 operands of every lazy construct with counting tracers must perform exactly the reference evaluator's number of host-function invocations on four back ends (evaluation work is counted, never timed); a conditional placed after more than 64 KiB of code must be refused or evaluated, never loop: a panic that escapes the API or a dead worker is a violation, and the work counted by the build-tag Step hooks (lexer tokens, parser expr calls, checker nodes, unify calls, conversion calls) must stay below 200·(n+2)²+2000 for an input of n runes — a deterministic abort, never a wall-clock oracle.",
          "Polynomial is checked as quadratic in counted steps; evaluation cost is covered by C11 (forward-only bytecode). Stack exhaustion beyond nesting depth 200 is not explored.",
          "DESIGN.md §4 C12"),
 
@@ -152,7 +152,7 @@ def main():
         },
         "engines": [
             {"name": "enum", "path": "mc/engine", "serves_properties": [p for p in ALL if p in CHECKS and CHECKS[p][0] == "enum"],
-             "kind_free_text": "bounded-exhaustive enumerator: deterministic odometer over an explicit alphabet, hash-partitioned over 16 worker processes, every case executed on the real code and compared with a reference model; crash attribution by mmap cursor, isolated 5x re-run"},
+             "kind_free_text": "bounded-exhaustive enumerator: deterministic odometer over an explicit alphabet, hash-partitioned over 16 worker processes, every case executed on the real code and compared with a reference model; crash attribution by mmap cursor, isolated re-runs until 3 reproduce"},
             {"name": "sched", "path": "mc/sched", "serves_properties": [p for p in ALL if p in CHECKS and CHECKS[p][0] == "sched"],
              "kind_free_text": "controlled cooperative scheduler + DFS over all interleavings of hooked points with iterative preemption bounding; separate free-running -race pass over the same thread bodies"},
             {"name": "hist", "path": "mc/hist", "serves_properties": [p for p in ALL if p in CHECKS and CHECKS[p][0] == "hist"],
